@@ -14,7 +14,8 @@
   * for every label list: `withdrawn_stays(_from)`;
   * under the guard "every processed view is current OR BENIGN" (`Stable.current`, resp. batches of `deliver`; benign =
     same verdict and same cleaning as the current status, `benign_stale_eq_deliver`): the `…_partial` theorems; outside
-    it `stale_view_two_active_witness` (F4 in Lean, replayed on the real code: corpus/C13/F4.json);
+    it `stale_view_two_active_witness` (F4 in Lean, replayed on the real code: corpus/C13/F4.json) and
+    `restart_stale_view_two_active_witness` (F5, corpus/C13/F5.json);
   * the graceful stop of the code is the proper one with a window in between (`exit_two_phase`); in that window the
     successor and the exiting operator are both active (`exit_overlap_two_active_witness`, F7, corpus/C13/F7.json);
   * for timely runs (`Timely`: API calls ≤ B ticks, old views only if benign): `own_record_fresh`, backed by `renewal`;
@@ -1022,6 +1023,18 @@ example : ∃ s s1 s2 s3, exStable = some s ∧ step 64 s (.kill "A") = some s1 
                 · rw [hn2 i hiA hiB] at hi; cases hi)
             h3
           exact ⟨s, s1, s2, s3, rfl, h1, h2, h3, p1, p2, res.1, p3⟩
+
+/-- `withdrawn_stays` instantiated for the order of the code: A's record is withdrawn first (`exitBegin`), then B resumes,
+    renews, processes an OLD view naming A, A's handling ends, time passes: A has no record at the end. -/
+example : ∀ s s1 s', exStable = some s → step 64 s (.exitBegin "A") = some s1 →
+    run 64 s1 [.deliver "B", .keepalive "B" 1, .deliverStale "B" [("A", exA), ("B", exB)], .exitEnd "A", .tick 640, .deliver "B"] = some s' →
+    ∀ r, ("A", r) ∉ s'.status := by
+  intro s s1 s' _ h1 h2
+  exact withdrawn_stays (Or.inl h1) _ (by intro l hl; simp at hl; rcases hl with rfl | rfl | rfl | rfl | rfl | rfl <;> simp) h2
+
+example : (exStable.bind (fun s => (step 64 s (.exitBegin "A")).bind (fun s1 =>
+    run 64 s1 [.deliver "B", .keepalive "B" 1, .deliverStale "B" [("A", exA), ("B", exB)], .exitEnd "A", .tick 640, .deliver "B"]))).map
+    (fun s => (s.status.map (·.1), (s.ops "A").map (·.alive), (s.ops "B").map (·.paused))) = some (["B"], some false, some false) := by decide
 
 -- `equal_priority_both_paused_partial`: two operators of priority 10, both delivered, both paused (concretely)
 example : ((run 64 init [.start "A" 10 10, .start "B" 10 10, .keepalive "A" 0, .keepalive "B" 0, .deliver "A", .deliver "B"]).map
